@@ -511,6 +511,9 @@ func (m *Model) CanonKeyAt(d *Driver, keys []string, now time.Time) string {
 				if r.Exp.Sub(now) <= 5*time.Second {
 					e = "short"
 				}
+				if r.Exp.Sub(now) <= time.Millisecond {
+					e = "sub-ms" // a backend may round such a life-time: keep it apart
+				}
 			}
 			fmt.Fprintf(&b, "%s/%s", string(r.Val), e)
 			if m.WriterInKey && (m.WriterKeys == nil || m.WriterKeys[k]) {
